@@ -62,8 +62,11 @@ WellFormed(G) ==
 (* Byte size of a tree object: "<octal mode> SP name NUL <20-byte oid>"    *)
 (* per entry.  Mode "40000" has five digits, all others six.               *)
 (***************************************************************************)
+\* the octal mode as git writes it: "40000" for a tree, six digits otherwise; an entry written with
+\* another spelling of the same type bits ("040000", "100664") carries the length of that spelling in ml
 ModeLen(k) == IF k = "tree" THEN 5 ELSE 6
-EntryBytes(e) == ModeLen(e.k) + 1 + e.nl + 1 + 20
+ModeLenOf(e) == IF "ml" \in DOMAIN e THEN e.ml ELSE ModeLen(e.k)
+EntryBytes(e) == ModeLenOf(e) + 1 + e.nl + 1 + 20
 TreeObjSize(G, i) == SumSeq([j \in 1..Len(G.trees[i]) |-> EntryBytes(G.trees[i][j])])
 
 (***************************************************************************)
